@@ -58,6 +58,7 @@ type seqOp struct {
 	Bits     int    `json:"bits"`
 	IL       int64  `json:"il"`
 	PL       int64  `json:"pl"`
+	WB       int    `json:"wb"` // openwrong: also ask for this index bit size
 	N        int    `json:"n"`
 	Mark     string `json:"mark"`
 }
@@ -642,7 +643,15 @@ func (r *seqRun) reopen(op seqOp, ev core.Ev) {
 		if op.PL != 0 {
 			pl = op.PL
 		}
-		st, err := openAt(r.dir, r.primaryType(), c.Imm, r.bits, il, pl)
+		wbits := r.bits
+		if op.WB != 0 {
+			// the wrong limit comes together with another index bit size: still to be refused
+			wbits = op.WB
+			if wbits == r.bits {
+				wbits++
+			}
+		}
+		st, err := openAt(r.dir, r.primaryType(), c.Imm, wbits, il, pl)
 		ev["werr"] = openErrClass(err)
 		if err == nil {
 			ev["werr"] = "opened"
